@@ -184,6 +184,8 @@ def gen_movie(rng, thorough=False, plant_history=False, dense=False):
                memory=memory, strategy="recursive", entry="link_iter", missing=[])
     if rng.random() < 0.3:
         inp["cols_perm"] = True
+    if rng.random() < 0.2:
+        inp["maxsize"] = rng.choice([2, 3, 4, 6, 12, 40])
     if fine:
         inp["fine"] = fine
     return inp
@@ -521,10 +523,23 @@ def expected_oversize_py(inp, levels_before, t, pts, maxsize, vel=None):
 
 def run_movie_case(ctx, inp, want=("valid", "optimal"), prop="C01", maxsize=None):
     """one movie through the implementation and the monitor"""
-    if maxsize is None:
-        maxsize = code_limits()[0]
+    code_limits()
     res = Result()
-    levels = run_impl(inp)
+    if maxsize is None and inp.get("maxsize"):
+        # the documented knob: Linker.MAX_SUB_NET_SIZE set by the user ("… or increase
+        # Linker.MAX_SUB_NET_SIZE"); the raise / no-raise boundary must follow it
+        import trackpy.linking.linking as _L
+        old = _L.Linker.MAX_SUB_NET_SIZE
+        _L.Linker.MAX_SUB_NET_SIZE = maxsize = int(inp["maxsize"])
+        res.stat("max_sub_net_size_set_to_%d" % maxsize)
+        try:
+            levels = run_impl(inp)
+        finally:
+            _L.Linker.MAX_SUB_NET_SIZE = old
+    else:
+        if maxsize is None:
+            maxsize = code_limits()[0]
+        levels = run_impl(inp)
     if levels is None:
         res.stat("empty_table")
         return res
